@@ -29,7 +29,9 @@ RULE = ('seed sets of 1-2 distinct small molecules x all non-empty subsets '
         'rule instead of lists. '
         ' '
         'Round 17: twelve small networks generated from rule texts by four'
-        ' threads at once.')
+        ' threads at once.'
+        ' '
+        'Round 20: seeds written with atom-map labels.')
 ASSUMPTIONS = [
     'unimolecular rules; closures above 250 species are skipped (counted)',
     'RunReactants of a single rule on a single species is a primitive '
